@@ -173,6 +173,15 @@ def iirRun {α : Type} [Add α] [Sub α] [Mul α] [OfNat α 0] (b a : List α) (
   let (_, out) := toks.foldl (fun (st : Dsp.Iir3 α × List Int) t => let (f', y) := st.1.step (conv t); (f', st.2 ++ [show_ y])) (f0, [])
   joinInts out
 
+/-- direct-form CRC-16 with an arbitrary polynomial and initial value (answers the harness op `crc_other`, which exercises other
+    `CRC16<>` instantiations next to the M17 one; not part of the verified model) -/
+def genericCrc (poly init : Nat) (bytes : List Nat) : Nat :=
+  bytes.foldl (fun r b => (List.range 8).foldl (fun r i =>
+    let top := r / 32768 % 2
+    let bit := (b >>> (7 - i)) % 2
+    let r2 := (2 * r) % 65536
+    if top != bit then r2 ^^^ poly else r2) r) init
+
 def clockFreeRun : Nat → List Int → List Int → List Int
   | fu + 1, e :: c :: n :: rest, acc => clockFreeRun fu rest (acc ++ [Clock.freeIndex e c n.toNat])
   | _, _, acc => acc
@@ -269,6 +278,9 @@ def handle (st : DrvState) (op : String) (a : List Int) : DrvState × String :=
   | "mod_data", fn :: p => (st, joinInts (TxMod.dataFrame fn.toNat (p.map Int.toNat)))
   | "mod_lich", n :: seg => (st, joinInts (TxMod.lichSegment (seg.map Int.toNat) n.toNat))
   | "mod_audio_frame", _bs :: _inv :: rest => (st, joinNats (TxMod.sendAudioFrame (rest.take 96) (rest.drop 96)))
+  | "crc_other", which :: bytes =>
+    let (poly, init) := if which == 0 then (0x1021, 0xFFFF) else if which == 1 then (0x8005, 0) else (0x5935, 0)
+    (st, toString (genericCrc poly init (bytes.map Int.toNat)))
   | "clock_free", toks => (st, joinInts (clockFreeRun toks.length toks []))
   | "ax25", bytes =>
     let bs (l : List Nat) := String.join (l.map fun b => " " ++ toString b)
